@@ -1,4 +1,5 @@
 import PV.Lemmas.SocketCalls
+import PV.Lemmas.SocketGetters
 /-!
 # C10 — Socket modes and lifecycle
 
@@ -295,5 +296,52 @@ theorem nonblocking_receive_wouldblock (s : Sock) (hb : s.blocking = false) (hc 
   rw [nonblocking_wouldblock_at_once (recvCfg s n) (by simp [recvCfg, loopCfg, hb]) _ rest e EAGAIN
     (by simp [recvCfg, loopCfg, recvCall, Issued.sys]) rfl io_EAGAIN]
   simp [ofLoop, recvCfg, loopCfg, recvCall]
+
+/-! ## 2. `getters_reflect`
+
+Spec: the record `PV.Socket.Spec.Flags` (timeout, backlog, blocking, keepalive, connected, closed,
+listening) updated by `Spec.step` — timeout clamped at 0; backlog frozen while listening; keepalive
+only on a successful `setsockopt`; connected set by a successful connect / check_connect_result (and
+by accept / new_from_fd when `getpeername` succeeds), cleared by close, by shutdown of both
+directions and by a SO_ERROR ≠ 0 ("Error in socket layer"); closed / listening by close / listen. -/
+
+/-- one call, every script: the object's mode/lifecycle fields after the call are the spec record's -/
+theorem getters_reflect_step (s : Sock) (c : Call) (script : Script) (e : Int) (r : CallResult)
+    (h : call s c script e = .ok r) :
+    Spec.flagsOf r.sock = Spec.step (Spec.flagsOf s) c r.out r.tr :=
+  call_refines_spec s c script e r h
+
+/-- no call changes family / type / protocol; `fd` changes only in `close` (to −1), so `closed → fd = −1` is invariant -/
+theorem getters_identity_fields (s : Sock) (c : Call) (script : Script) (e : Int) (r : CallResult)
+    (h : call s c script e = .ok r) :
+    (r.sock.family = s.family ∧ r.sock.type = s.type ∧ r.sock.protocol = s.protocol) ∧
+    (r.sock.fd = s.fd ∨ (c = .close ∧ r.sock.fd = -1)) ∧
+    ((s.closed = true → s.fd = -1) → (r.sock.closed = true → r.sock.fd = -1)) :=
+  ⟨call_identity s c script e r h, call_fd s c script e r h, call_closed_fd s c script e r h⟩
+
+/-- a socket made by `p_socket_new` starts blocking, timeout 0, backlog 5, not connected / closed / listening / keepalive -/
+theorem getters_of_new (f t p : Int) (script : Script) (e : Int) (s : Sock) (err : Option PErr) (st : St) (evs : List Ev)
+    (h : runM (new f t p) script e = .ok ((some s, err), st, evs)) :
+    Spec.flagsOf s = Spec.fresh ∧ s.family = f ∧ s.type = t ∧ s.protocol = p :=
+  new_spec f t p script e s err st evs h
+
+/-- an accepted socket: as `Spec.adopted` (connected iff `getpeername` worked, keepalive as the kernel says), protocol of the listener -/
+theorem getters_of_accepted (s : Sock) (script : Script) (e : Int) (r : CallResult) (ns : Sock)
+    (h : call s .accept script e = .ok r) (hs : r.out.sock = some ns) :
+    Spec.flagsOf ns = Spec.adopted r.tr ∧ ns.protocol = s.protocol :=
+  accept_spec s script e r ns h hs
+
+/-- **getters_reflect**: after ANY sequence of API calls (new / new_from_fd / any call on any slot incl. accept /
+    free) with ANY native answers, starting from nothing, the fields behind the connected / closed / keepalive /
+    blocking / timeout / backlog getters of every socket held equal the spec record (`run`, `sstep` in
+    `PV.Lemmas.SocketGetters`) -/
+theorem getters_reflect (steps : List (WCall × Script)) (e : Int) (slot : Nat) :
+    (World.get (run [] [] e steps).1 slot).map Spec.flagsOf = SWorld.get (run [] [] e steps).2 slot :=
+  getters_reflect_run steps e slot
+
+/-- non-vacuity: adopt fd 5 (connected, keepalive), timeout −3 → 0, backlog 9, listen, backlog 11 (frozen),
+    shutdown both, close twice, call on an empty slot — model and spec worlds agree, and are not trivial -/
+example : (run [] [] 0 demoSteps).1.map (fun p => (p.1, Spec.flagsOf p.2)) = (run [] [] 0 demoSteps).2
+    ∧ (run [] [] 0 demoSteps).2.length = 1 := by decide
 
 end PV.Socket
